@@ -160,7 +160,25 @@ func checkC04(p *Prog, r *Report) {
 	// stop only at a match (order-insensitive traversal, shared with C11)
 	oa := &orderAnalysis{p: p, r: r, tainted: map[*ssa.Function]bool{}, rule: "C04.search-complete"}
 	_, nSearch, _ := oa.checkFunction(f)
-	r.floor("loops over selections in MarshalResource", nSearch, 4)
+	// searches delegated to a small membership helper count once per call
+	helperSearches := map[*ssa.Function]int{}
+	eachInstr(f, func(ins ssa.Instruction) {
+		c, ok := ins.(*ssa.Call)
+		if !ok {
+			return
+		}
+		g := c.Common().StaticCallee()
+		if g == nil || g.Blocks == nil || !smallHelper(g) {
+			return
+		}
+		k, seen := helperSearches[g]
+		if !seen {
+			_, k, _ = oa.checkFunction(g)
+			helperSearches[g] = k
+		}
+		nSearch += k
+	})
+	r.floor("loops over selections in MarshalResource (helper searches counted per call)", nSearch, 4)
 
 	checkMarshalCallSites(p, r, f)
 	checkDataShape(p, r, f)
